@@ -72,7 +72,7 @@ N_DOC_SHARDS, N_REFUSAL_SHARDS, N_RANGE_SHARDS = 10, 1, 5
 def plan(tier, seed):
     n_doc = 30 if tier == "quick" else 600
     n_ref = 120 if tier == "quick" else 1500
-    reps = 1 if tier == "quick" else 12
+    reps = 2 if tier == "quick" else 34
     specs = [{"shard": s, "seed": seed, "kind": "docs", "n": n_doc} for s in range(N_DOC_SHARDS)]
     specs += [{"shard": 20 + s, "seed": seed, "kind": "refusal", "n": n_ref} for s in range(N_REFUSAL_SHARDS)]
     total = len(all_triples())
@@ -485,8 +485,8 @@ def write_target(tmp, idx, rows, cols, rng):
 def gen_calibration(rng, tmp, idx, dspec, pdoc):
     rows, cols = dspec["geometry"]["row"], dspec["geometry"]["col"]
     g_fp = next(g for g, ms in pdoc.items() if ms and any(m["name"] == "fp" for m in ms))
-    cal = {"target_data_path": [write_target(tmp, idx, rows, cols, rng)
-                                for _ in range(rng.randint(1, 2))]}
+    cal = {"target_data_path": [write_target(tmp, f"{idx}t{j}", rows, cols, rng)
+                                for j in range(rng.randint(1, 2))]}
     ff = {"func": "pyxel.calibration.fitness." + rng.choice(["sum_of_abs_residuals", "sum_of_squared_residuals",
                                                                "reduced_chi_squared"])}
     if ff["func"].endswith("reduced_chi_squared"):
@@ -604,6 +604,17 @@ def gen_document(rng, kind, mode, tmp, idx):
 
 
 # =============================================================================== fidelity comparison
+SKIP = object()
+
+
+def private(obj, *names):
+    """Settings without a public reader: read the private attribute when it exists, otherwise skip (counted)."""
+    for n in names:
+        if hasattr(obj, n):
+            return getattr(obj, n)
+    return SKIP
+
+
 class Cmp:
     def __init__(self, rec, case, index):
         self.rec, self.case, self.index = rec, case, index
@@ -621,6 +632,9 @@ class Cmp:
             loaded = getter()
         except Exception as exc:  # noqa: BLE001
             self.fail(f"{what}:unreadable", f"written {written!r}, reading the loaded setting raised {type(exc).__name__}: {exc}")
+            return
+        if loaded is SKIP:
+            self.rec.count("settings_skipped_no_public_reader")
             return
         good = close_seq(loaded, written) if seq_close else same(loaded, written)
         if not good:
@@ -732,7 +746,10 @@ def compare_calibration(c, cal, cdoc):
         c.value("calibration.weights_from_file", lambda: [str(p) for p in cal.weights_from_file],
                 [str(pathlib.Path(p).resolve()) for p in cdoc["weights_from_file"]])
     if "type_islands" in cdoc:
-        c.value("calibration.type_islands", lambda: cal._type_islands.value, cdoc["type_islands"])  # no public reader
+        def islands():
+            v = private(cal, "type_islands", "_type_islands")
+            return v if v is SKIP else getattr(v, "value", v)
+        c.value("calibration.type_islands", islands, cdoc["type_islands"])
     alg = cdoc["algorithm"]
     for k, v in alg.items():
         if k == "type":
@@ -740,9 +757,15 @@ def compare_calibration(c, cal, cdoc):
         else:
             c.value(f"calibration.algorithm.{k}", lambda k=k: getattr(cal.algorithm, k), v)
     ff = cdoc["fitness_function"]
-    c.value("calibration.fitness_function.func", lambda: cal.fitness_function._func is resolve_func(ff["func"]), True)
+    def fit_func():
+        v = private(cal.fitness_function, "func", "_func")
+        return v if v is SKIP else v is resolve_func(ff["func"])
+    c.value("calibration.fitness_function.func", fit_func, True)
     if ff.get("arguments"):
-        c.value("calibration.fitness_function.arguments", lambda: dict(cal.fitness_function._arguments), ff["arguments"])
+        def fit_args():
+            v = private(cal.fitness_function, "arguments", "_arguments")
+            return v if v is SKIP else dict(v)
+        c.value("calibration.fitness_function.arguments", fit_args, ff["arguments"])
     compare_parameters(c, list(cal.parameters), cdoc["parameters"], [None] * len(cdoc["parameters"]), "calibration")
     if "result_input_arguments" in cdoc:
         ria = cdoc["result_input_arguments"]
@@ -785,7 +808,10 @@ def compare_config(rec, cfg, doc, oracle, case, index) -> bool:
     if mode == "observation":
         compare_parameters(c, list(run.parameter_mode.parameters), mdoc["parameters"], oracle["parameters"], "observation")
         if "mode" in mdoc:
-            c.value("observation.mode", lambda: type(run.parameter_mode).__name__.lower().replace("mode", ""), mdoc["mode"])
+            def obs_mode():
+                name = type(run.parameter_mode).__name__
+                return {"ProductMode": "product", "SequentialMode": "sequential", "CustomMode": "custom"}.get(name, SKIP)
+            c.value("observation.mode", obs_mode, mdoc["mode"])
         if "with_dask" in mdoc:
             c.value("observation.with_dask", lambda: run.with_dask, mdoc["with_dask"])
     if mode == "calibration":
@@ -1018,7 +1044,13 @@ def refusal_case(rec, i, rng):
         return
     try:
         if route == "yaml":
-            pyxel.loads(text)
+            if rng.random() < 0.3:
+                path = os.path.join(rec.tmp, f"refusal_{i}.yaml")
+                with open(path, "w") as fh:
+                    fh.write(text)
+                pyxel.load(path)
+            else:
+                pyxel.loads(text)
         else:
             # the same nonsense as objects: every section loaded on its own, then put into one Configuration
             kw = {"pipeline": base_cfg.pipeline}
